@@ -233,6 +233,8 @@ def gen_spec(rng, enum, tier, kind=None):
         counts.setdefault("mjOBJ_BODY", 1)
     if "mjOBJ_PAIR" in counts:
         counts["mjOBJ_GEOM"] = max(counts.get("mjOBJ_GEOM", 0), 2)
+    if "mjOBJ_JOINT" in counts:   # at most 6 dofs per body; the harness puts joint i on body i % nbody
+        counts["mjOBJ_BODY"] = max(counts["mjOBJ_BODY"], (counts["mjOBJ_JOINT"] + 5) // 6)
     wname = None
     r = rng.random()
     if r < 0.25:
